@@ -304,3 +304,30 @@ Definition spec_ok_on (on : list string) (cls : Z) (tmpl : string) (m : meth) (l
                  else match o with OStatus 404 => true | _ => false end
   | _, _ => spec_ok cls tmpl m l json o
   end.
+
+(* ---- GET /listen: what a listener is SERVED is a list of events; "never served above its level" is about its content ----
+   Hand-written from the API specification: the minimum level of each event type.  A listener of level l receives,
+   of the events triggered while it listens, exactly those whose level is <= l (whatever ?timeout= it asked for).
+   An event type this table does not know is treated as admin-only by the oracle. *)
+Definition event_level_spec (t : string) : option Z :=
+  if String.eqb t "value-change" then Some LV_VIEWONLY
+  else if String.eqb t "port-update" then Some LV_VIEWONLY
+  else if String.eqb t "port-add" then Some LV_VIEWONLY
+  else if String.eqb t "port-remove" then Some LV_VIEWONLY
+  else if String.eqb t "full-update" then Some LV_VIEWONLY
+  else if String.eqb t "device-update" then Some LV_ADMIN
+  else if String.eqb t "slave-device-update" then Some LV_ADMIN
+  else if String.eqb t "slave-device-add" then Some LV_ADMIN
+  else if String.eqb t "slave-device-remove" then Some LV_ADMIN
+  else if String.eqb t "dashboard-update" then Some LV_ADMIN
+  else None.
+
+Definition event_permitted_spec (l : Z) (t : string) : bool :=
+  match event_level_spec t with Some r => r <=? l | None => LV_ADMIN <=? l end.
+
+Definition same_set (a b : list string) : bool :=
+  forallb (fun x => str_in x b) a && forallb (fun x => str_in x a) b.
+
+(* l = the listener's level, triggered = the event types triggered while it listened, delivered = the types in its answer *)
+Definition listen_spec_ok (l : Z) (triggered delivered : list string) : bool :=
+  same_set delivered (filter (event_permitted_spec l) triggered).
